@@ -517,18 +517,22 @@ func stressOp(toks []string) string {
 // the Lean protocol model must accept every one of them.
 
 type tracer struct {
-	full     int32
-	mu       sync.Mutex
-	lines    []string
-	txIDs    map[any]int
-	recIDs   map[any]int
-	recName  map[int]string
-	nextTx   int
-	nextRec  int
-	waiters  map[any]int     // channel of a blocking pop -> waiter number
-	returned map[int]bool    // waiters whose call has produced its result
-	mini     map[any]*miniTx // who (a *int64) -> state of the mini transaction
-	miniRec  map[int]any     // record -> mini transaction currently holding it in w mode
+	full          int32
+	mu            sync.Mutex
+	lines         []string
+	txIDs         map[any]int
+	recIDs        map[any]int
+	recName       map[int]string
+	nextTx        int
+	nextRec       int
+	waiters       map[any]int             // channel of a blocking pop -> waiter number
+	returned      map[int]bool            // waiters whose call has produced its result
+	regKeys       map[int]map[string]bool // waiter -> keys it is registered for
+	notified      map[int]int             // waiter -> wake-ups offered so far
+	pushes        map[any]map[int]int     // wake-up round in progress -> waiters registered at its start, with their counters
+	pushViolation string
+	mini          map[any]*miniTx // who (a *int64) -> state of the mini transaction
+	miniRec       map[int]any     // record -> mini transaction currently holding it in w mode
 }
 
 type miniTx struct {
@@ -537,7 +541,7 @@ type miniTx struct {
 }
 
 func newTracer() *tracer {
-	return &tracer{txIDs: map[any]int{}, recIDs: map[any]int{}, recName: map[int]string{}, mini: map[any]*miniTx{}, miniRec: map[int]any{}, waiters: map[any]int{}, returned: map[int]bool{}}
+	return &tracer{txIDs: map[any]int{}, recIDs: map[any]int{}, recName: map[int]string{}, mini: map[any]*miniTx{}, miniRec: map[int]any{}, waiters: map[any]int{}, returned: map[int]bool{}, regKeys: map[int]map[string]bool{}, notified: map[int]int{}, pushes: map[any]map[int]int{}}
 }
 
 func kx(key string) string { return fmt.Sprintf("k%x", key) }
@@ -583,6 +587,28 @@ func (tr *tracer) hook(ev string, who any, key string, m any, flag bool) {
 		tr.emit("clear")
 		return
 	}
+	if ev == "bp-push" {
+		// a push's wake-up round: every waiter that is registered for the key when the round
+		// begins (the set cannot change during the round: the waiters lock is held) must have
+		// been offered a wake-up when it ends. Checked here, on the implementation's own report.
+		if flag {
+			snap := map[int]int{}
+			for w, ks := range tr.regKeys {
+				if ks[key] {
+					snap[w] = tr.notified[w]
+				}
+			}
+			tr.pushes[who] = snap
+		} else {
+			for w, before := range tr.pushes[who] {
+				if tr.regKeys[w][key] && tr.notified[w] == before && tr.pushViolation == "" {
+					tr.pushViolation = fmt.Sprintf("a push to %q ended its wake-up round without offering a wake-up to waiter %d, which is registered for that key", key, w)
+				}
+			}
+			delete(tr.pushes, who)
+		}
+		return
+	}
 	if strings.HasPrefix(ev, "bp-") {
 		// wake-up protocol of the blocking pops: a separate model (`bev` lines)
 		w, ok := tr.waiters[who]
@@ -600,8 +626,17 @@ func (tr *tracer) hook(ev string, who any, key string, m any, flag bool) {
 				tr.returned[w] = true
 				tr.lines = append(tr.lines, fmt.Sprintf("bev abort %d", w))
 			}
+			delete(tr.regKeys[w], key)
 			line = fmt.Sprintf("bev unreg %d %s", w, kx(key))
 		case "bp-reg", "bp-notify":
+			if ev == "bp-reg" {
+				if tr.regKeys[w] == nil {
+					tr.regKeys[w] = map[string]bool{}
+				}
+				tr.regKeys[w][key] = true
+			} else {
+				tr.notified[w]++
+			}
 			line = fmt.Sprintf("bev %s %d %s", ev[3:], w, kx(key))
 		case "bp-try":
 			if flag {
@@ -721,6 +756,9 @@ func ptraceOp(toks []string) string {
 	nodis.VerifTraceHook = nil
 	tr.mu.Lock()
 	defer tr.mu.Unlock()
+	if tr.pushViolation != "" && strings.HasPrefix(res, "ok") {
+		res = "FAIL " + tr.pushViolation
+	}
 	tr.lines = append(tr.lines, "pend")
 	if err := os.WriteFile(toks[5], []byte(strings.Join(tr.lines, "\n")+"\n"), 0o644); err != nil {
 		return "FAIL " + err.Error()
